@@ -18,6 +18,27 @@ pub enum Act {
   Unsub(usize),
   /// the subscription was wrapped in utils::Using; drop the guard
   UsingDrop(usize),
+  /// declaration (a no-op as a step): when root `outer`'s subscriber receives
+  /// `trig`, its callback subscribes root `inner` to the same Observable value
+  Nest { outer: usize, trig: Trig, inner: usize },
+}
+
+#[derive(Clone, Copy, Debug, PartialEq)]
+pub enum Trig {
+  /// the n-th item (1-based)
+  Item(usize),
+  Complete,
+  Error,
+}
+impl Trig {
+  pub fn matches(&self, ev: &Ev, items_so_far: usize) -> bool {
+    match (self, ev) {
+      (Trig::Item(n), Ev::N(_)) => items_so_far == *n,
+      (Trig::Complete, Ev::C) => true,
+      (Trig::Error, Ev::E(_)) => true,
+      _ => false,
+    }
+  }
 }
 
 #[derive(Clone, Debug)]
@@ -53,6 +74,7 @@ impl Case {
         Act::Sub(r) => format!("sub#{}", r),
         Act::Unsub(r) => format!("unsub#{}", r),
         Act::UsingDrop(r) => format!("drop-using#{}", r),
+        Act::Nest { outer, trig, inner } => format!("[#{} subscribes #{} from its callback at {:?}]", outer, inner, trig),
         Act::Emit(i, e) => format!("s{}!{}", i, e.show()),
       })
       .collect();
@@ -200,6 +222,9 @@ struct SRec {
   step: Arc<AtomicUsize>,
   toks: Tokens,
   inner_subs: Arc<Mutex<Vec<Subscription<'static>>>>,
+  built: Arc<Mutex<Option<Arc<Built>>>>,
+  nests: Arc<Mutex<Vec<(usize, Trig, usize, bool)>>>,
+  nested_subs: Arc<Mutex<Vec<(usize, Subscription<'static>)>>>,
 }
 
 fn conv_mat(m: Material<V>) -> D {
@@ -213,7 +238,31 @@ fn conv_mat(m: Material<V>) -> D {
 impl SRec {
   fn push(&self, rec: u32, ev: Ev, err_addr: usize) {
     let step = self.step.load(Ordering::Relaxed);
-    self.log.lock().unwrap().push(RecEv { step, rec, ev, err_addr });
+    let items = {
+      let mut l = self.log.lock().unwrap();
+      l.push(RecEv { step, rec, ev: ev.clone(), err_addr });
+      l.iter().filter(|e| e.rec == rec && !e.ev.is_terminal()).count()
+    };
+    if rec % 100 == 0 {
+      let root = (rec / 100 - 1) as usize;
+      let fire: Vec<usize> = {
+        let mut n = self.nests.lock().unwrap();
+        n.iter_mut()
+          .filter(|x| x.0 == root && !x.3 && x.1.matches(&ev, items))
+          .map(|x| {
+            x.3 = true;
+            x.2
+          })
+          .collect()
+      };
+      for inner in fire {
+        let b = self.built.lock().unwrap().clone();
+        if let Some(b) = b {
+          let s = self.subscribe(&b, rec_id(inner));
+          self.nested_subs.lock().unwrap().push((inner, s));
+        }
+      }
+    }
   }
   fn sub_typed<T, F>(&self, o: &Observable<'static, T>, rec: u32, conv: F) -> Subscription<'static>
   where
@@ -343,8 +392,22 @@ pub fn run_real(case: &Case, opts: &RunOpts) -> Trace {
     step: Arc::new(AtomicUsize::new(0)),
     toks: toks.clone(),
     inner_subs: Arc::new(Mutex::new(vec![])),
+    built: Arc::new(Mutex::new(None)),
+    nests: Arc::new(Mutex::new(
+      case.acts.iter().filter_map(|a| if let Act::Nest { outer, trig, inner } = a { Some((*outer, *trig, *inner, false)) } else { None }).collect(),
+    )),
+    nested_subs: Arc::new(Mutex::new(vec![])),
   };
-  let n_roots = case.acts.iter().filter_map(|a| if let Act::Sub(r) = a { Some(*r + 1) } else { None }).max().unwrap_or(0);
+  let n_roots = case
+    .acts
+    .iter()
+    .filter_map(|a| match a {
+      Act::Sub(r) => Some(*r + 1),
+      Act::Nest { inner, .. } => Some(*inner + 1),
+      _ => None,
+    })
+    .max()
+    .unwrap_or(0);
   let root_live = Arc::new(Mutex::new(Vec::<Vec<Option<bool>>>::new()));
   let src_alive = Arc::new(Mutex::new(Vec::<Vec<Vec<bool>>>::new()));
   let held = Arc::new(Mutex::new(Vec::<Vec<usize>>::new()));
@@ -381,7 +444,8 @@ pub fn run_real(case: &Case, opts: &RunOpts) -> Trace {
       toks: toks.clone(),
       tap_log: tap_log.clone(),
     };
-    let built = build_typed(&case.pipeline, &env);
+    let built = Arc::new(build_typed(&case.pipeline, &env));
+    *rec.built.lock().unwrap() = Some(built.clone());
     drop(env);
     let mut subs: Vec<Option<Subscription<'static>>> = (0..n_roots).map(|_| None).collect();
     for (step, act) in case.acts.iter().enumerate() {
@@ -406,12 +470,20 @@ pub fn run_real(case: &Case, opts: &RunOpts) -> Trace {
             drop(guard);
           }
         }
+        Act::Nest { .. } => {}
+      }
+      for (r, s) in rec.nested_subs.lock().unwrap().iter() {
+        if subs[*r].is_none() {
+          subs[*r] = Some(s.clone());
+        }
       }
       root_live.lock().unwrap().push(subs.iter().map(|s| s.as_ref().map(|s| s.is_subscribed())).collect());
       src_alive.lock().unwrap().push(srcs.iter().map(|s| s.alive()).collect());
       held.lock().unwrap().push(srcs.iter().map(|s| s.subject.verif_observer_count()).collect());
     }
     drop(subs);
+    *rec.built.lock().unwrap() = None;
+    rec.nested_subs.lock().unwrap().clear();
     drop(built);
   }));
   set_monitor_mode(false);
@@ -455,8 +527,23 @@ pub fn run_real(case: &Case, opts: &RunOpts) -> Trace {
 pub fn run_ref(case: &Case) -> Trace {
   let mut tr = Trace::default();
   let mut w = RefWorld::new(case.srcs.clone());
-  let n_roots = case.acts.iter().filter_map(|a| if let Act::Sub(r) = a { Some(*r + 1) } else { None }).max().unwrap_or(0);
+  let n_roots = case
+    .acts
+    .iter()
+    .filter_map(|a| match a {
+      Act::Sub(r) => Some(*r + 1),
+      Act::Nest { inner, .. } => Some(*inner + 1),
+      _ => None,
+    })
+    .max()
+    .unwrap_or(0);
   let mut roots: Vec<Option<usize>> = vec![None; n_roots];
+  w.nest_pipeline = Some(case.pipeline.clone());
+  for a in &case.acts {
+    if let Act::Nest { outer, trig, inner } = a {
+      w.nests.push((rec_id(*outer), *trig, rec_id(*inner), false));
+    }
+  }
   for (step, act) in case.acts.iter().enumerate() {
     match act {
       Act::Sub(r) => roots[*r] = Some(w.subscribe_root(&case.pipeline, rec_id(*r))),
@@ -465,6 +552,13 @@ pub fn run_ref(case: &Case) -> Trace {
         if let Some(id) = roots[*r] {
           w.unsubscribe_root(id)
         }
+      }
+      Act::Nest { .. } => {}
+    }
+    for (rec, id) in w.root_of_rec.clone() {
+      let r = (rec / 100 - 1) as usize;
+      if r < roots.len() && roots[r].is_none() {
+        roots[r] = Some(id);
       }
     }
     for (rec, ev) in w.out.drain(..) {
